@@ -1259,6 +1259,11 @@ fn gen_sk(cx: &mut Cx, rng: &mut Rng, n: usize) {
 }
 
 fn gen_track_hdr(cx: &mut Cx, rng: &mut Rng, n: usize, real_mem: Option<&[u8]>) {
+    // the fixed witnesses: length field = u64::MAX behind a valid magic and version
+    for (dec, magic) in [("memhdr", b"MVMC"), ("meshhdr", b"MVLM")] {
+        let mut d = magic.to_vec(); d.extend_from_slice(&1u16.to_le_bytes()); d.extend_from_slice(&u64::MAX.to_le_bytes());
+        dec_case(cx, dec, vec![hexw(&d)], "witness-len-u64max", false);
+    }
     for i in 0..n {
         let mesh = i % 2 == 1;
         let mut d: Vec<u8> = if mesh { b"MVLM".to_vec() } else { b"MVMC".to_vec() };
@@ -1271,11 +1276,6 @@ fn gen_track_hdr(cx: &mut Cx, rng: &mut Rng, n: usize, real_mem: Option<&[u8]>) 
         if rng.chance(1, 10) { let l = rng.usize(0, 14.min(d.len())); d.truncate(l); }
         if !mesh && i % 10 == 0 { if let Some(r) = real_mem { d = r.to_vec(); } }
         dec_case(cx, if mesh { "meshhdr" } else { "memhdr" }, vec![hexw(&d)], "track-header", false);
-    }
-    // the fixed witnesses: length field = u64::MAX behind a valid magic and version
-    for (dec, magic) in [("memhdr", b"MVMC"), ("meshhdr", b"MVLM")] {
-        let mut d = magic.to_vec(); d.extend_from_slice(&1u16.to_le_bytes()); d.extend_from_slice(&u64::MAX.to_le_bytes());
-        dec_case(cx, dec, vec![hexw(&d)], "witness-len-u64max", false);
     }
 }
 
